@@ -7,6 +7,7 @@ import (
 	"net/http"
 	"net/http/httptest"
 	"strconv"
+	"strings"
 
 	"cuelabs.dev/go/oci/ociregistry"
 	"cuelabs.dev/go/oci/ociregistry/ociclient"
@@ -24,6 +25,11 @@ type inprocTransport struct {
 	Requests int
 	// Hook, if set, may replace the genuine response (fault injection).
 	Hook func(req *http.Request, resp *http.Response) *http.Response
+	// Mangle, if set, edits what the server produced (status, headers, body) BEFORE the
+	// net/http framing rules are applied, like a faulty server or middlebox would.
+	// It returns true when the Content-Length header must be treated as absent
+	// (the real server would then use chunked encoding: unknown length).
+	Mangle func(req *http.Request, status *int, header http.Header, body *[]byte) (unknownLength bool)
 	// Log receives one line per round trip when non-nil.
 	Log func(string)
 	// MaxRequests > 0 bounds the number of round trips (progress budget): beyond it every
@@ -89,6 +95,10 @@ func (t *inprocTransport) RoundTrip(req *http.Request) (*http.Response, error) {
 	t.h.ServeHTTP(rec, sreq)
 	res := rec.Result()
 	data, _ := io.ReadAll(res.Body)
+	unknownLength := false
+	if t.Mangle != nil {
+		unknownLength = t.Mangle(req, &res.StatusCode, res.Header, &data)
+	}
 	noBody := req.Method == "HEAD" || res.StatusCode == 204 || res.StatusCode == 304 || res.StatusCode/100 == 1
 	resp := &http.Response{
 		Status: fmt.Sprintf("%d %s", res.StatusCode, http.StatusText(res.StatusCode)), StatusCode: res.StatusCode,
@@ -98,9 +108,12 @@ func (t *inprocTransport) RoundTrip(req *http.Request) (*http.Response, error) {
 	resp.ContentLength = -1
 	declared := int64(-1)
 	if cl := res.Header.Get("Content-Length"); cl != "" {
-		if n, err := strconv.ParseInt(cl, 10, 64); err == nil && n >= 0 {
-			declared = n
+		n, err := strconv.ParseInt(strings.TrimSpace(cl), 10, 64)
+		if err != nil || n < 0 {
+			// net/http refuses such a response
+			return nil, fmt.Errorf("inproc transport: bad Content-Length %q", cl)
 		}
+		declared = n
 	}
 	switch {
 	case noBody:
@@ -116,6 +129,9 @@ func (t *inprocTransport) RoundTrip(req *http.Request) (*http.Response, error) {
 		} else {
 			resp.Body = io.NopCloser(&errReader{r: bytes.NewReader(data), err: io.ErrUnexpectedEOF})
 		}
+	case unknownLength:
+		resp.ContentLength = -1
+		resp.Body = io.NopCloser(bytes.NewReader(data))
 	default:
 		// the recorder did not see a Content-Length: net/http would add one for small bodies
 		resp.ContentLength = int64(len(data))
